@@ -81,6 +81,7 @@ template <typename V> struct Tr<backend::array<V>> {
   static const typename B::owning_data_t & store(const F & f) { return f.backend(); }
   static std::size_t cells(const F & f) { return f.backend().get_configuration()[0]; }
   static std::string read(const F & f, std::size_t k) { typename F::view_t v(f); return cell_str<M>(&v.at(k)[0]); }
+  static std::string readv(const typename F::view_t & v, const F &, std::size_t k) { return cell_str<M>(&v.at(k)[0]); }
   static void write(F & f, std::size_t k, unsigned long x) { typename F::view_t v(f); cell_put<M>(v.at(k), x); }
   static std::string extra(const F &) { return ""; }
 };
@@ -94,6 +95,7 @@ template <typename S, std::size_t NN, std::size_t MM> struct TrLayout {
   static typename F::coordinate_t coord(const F & f, std::size_t k) {
     auto u = unrank<N>(k, f.backend().get_configuration()); typename F::coordinate_t c; for (std::size_t d = 0; d < N; ++d) c[d] = u[d]; return c; }
   static std::string read(const F & f, std::size_t k) { typename F::view_t v(f); return cell_str<M>(&v.at(coord(f, k))[0]); }
+  static std::string readv(const typename F::view_t & v, const F & f, std::size_t k) { return cell_str<M>(&v.at(coord(f, k))[0]); }
   static void write(F & f, std::size_t k, unsigned long x) { typename F::view_t v(f); cell_put<M>(v.at(coord(f, k)), x); }
   static std::string extra(const F &) { return ""; }
 };
@@ -120,6 +122,7 @@ template <typename L> struct Tr<backend::nearest_neighbour<L>> {
   static typename F::coordinate_t coord(const F & f, std::size_t k) {
     auto u = unrank<N>(k, sizes(f)); typename F::coordinate_t c; for (std::size_t d = 0; d < N; ++d) c[d] = static_cast<float>(u[d]); return c; }
   static std::string read(const F & f, std::size_t k) { typename F::view_t v(f); return cell_str<M>(&v.at(coord(f, k))[0]); }
+  static std::string readv(const typename F::view_t & v, const F & f, std::size_t k) { return cell_str<M>(&v.at(coord(f, k))[0]); }
   static void write(F & f, std::size_t k, unsigned long x) { typename F::view_t v(f); cell_put<M>(v.at(coord(f, k)), x); }
   static std::string extra(const F &) { return ""; }
 };
@@ -209,6 +212,25 @@ template <typename BD, typename BS> static void do_convert(std::optional<field<B
     }
   }
 }
+// A view taken before its field is moved keeps reading the same cells, now those of the destination: a view holds a pointer to
+// the storage and copies of the configuration, nothing of the field object (model: Covfie.Heap.view_survives_moveCtor /
+// view_survives_moveAssign).  `mv` performs the move; the harness dies with a message when the old view disagrees.
+template <typename B, typename Mv> static void move_with_view(field<B> & src, std::optional<field<B>> & dst, Mv && mv) {
+  if constexpr (requires(const typename field<B>::view_t & v, const field<B> & f) { Tr<B>::readv(v, f, 0); }) {
+    if (&src != (dst ? &*dst : nullptr) && Tr<B>::store(src).m_ptr && Tr<B>::cells(src) > 0) {
+      std::size_t n = Tr<B>::cells(src);
+      typename field<B>::view_t v(src);
+      mv();
+      for (std::size_t k = 0; k < n; ++k) if (Tr<B>::readv(v, *dst, k) != Tr<B>::read(*dst, k)) {
+        std::cerr << "Assertion `a view taken before the move reads the moved cells' failed: cell " << k << ": "
+                  << Tr<B>::readv(v, *dst, k) << " vs " << Tr<B>::read(*dst, k) << std::endl;
+        std::abort();
+      }
+      return;
+    }
+  }
+  mv();
+}
 template <typename B> static void load_into(std::optional<field<B>> & d, const field<B> & s) {
   std::stringstream ss;
   s.dump(ss);
@@ -251,11 +273,15 @@ int main() {
       Slot & S = slot[a[1]];
       int td = D.type(), ts = S.type();
       if (op == "copyCtor") { if (td < 0 && ts == 0) D.a.emplace(*S.a); else if (td < 0 && ts == 1) D.b.emplace(*S.b); }
-      else if (op == "moveCtor") { if (td < 0 && ts == 0) D.a.emplace(std::move(*S.a)); else if (td < 0 && ts == 1) D.b.emplace(std::move(*S.b)); }
+      else if (op == "moveCtor") {
+        if (td < 0 && ts == 0) move_with_view<B0>(*S.a, D.a, [&] { D.a.emplace(std::move(*S.a)); });
+        else if (td < 0 && ts == 1) move_with_view<B1>(*S.b, D.b, [&] { D.b.emplace(std::move(*S.b)); }); }
       else if (op == "copyAssign") {
         if (td >= 0 && ts >= 0) { if (td != ts) bad = true; else if (td == 0) *D.a = *S.a; else *D.b = *S.b; } }
       else if (op == "moveAssign") {
-        if (td >= 0 && ts >= 0) { if (td != ts) bad = true; else if (td == 0) *D.a = std::move(*S.a); else *D.b = std::move(*S.b); } }
+        if (td >= 0 && ts >= 0) { if (td != ts) bad = true;
+          else if (td == 0) move_with_view<B0>(*S.a, D.a, [&] { *D.a = std::move(*S.a); });
+          else move_with_view<B1>(*S.b, D.b, [&] { *D.b = std::move(*S.b); }); } }
       else if (op == "convert") {
         if (td < 0 && ts >= 0) {
           if (!CONVERTIBLE) bad = true;
